@@ -22,8 +22,16 @@ _files = {}
 
 class _FS:
     """In-memory stand-in for open() inside localcider.backend.seqfileparser."""
-    def __call__(self, name, *a, **k):
-        return io.StringIO(_files[name])
+    def __call__(self, name, mode="r", buffering=-1, encoding=None, errors=None, newline=None, **k):
+        data = _files[name]
+        if isinstance(data, str):
+            if "b" not in mode and encoding is None and errors is None and newline is None:
+                return io.StringIO(data, newline=None)     # fast path: same universal-newline reading as a text-mode file
+            data = data.encode("utf-8")
+        if "b" in mode:
+            return io.BytesIO(data)
+        # what open() does in text mode, with whatever encoding / errors / newline arguments the library passed
+        return io.TextIOWrapper(io.BytesIO(data), encoding=encoding or "utf-8", errors=errors, newline=newline)
 
 
 def install_fs():
@@ -43,6 +51,33 @@ def ref_vec(n):
         if len(_vec) > 20000:
             _vec.clear()
     return r
+
+
+BADBYTES = [b"\x80", b"\xa0", b"\xb5", b"\xc5", b"\xe9", b"\xff", b"\xc3", b"\xe2\x82", b"\xed\xa0\x80", b"\xc0\x80", b"\xf8\x88\x80\x80\x80",
+            b"\x92", b"\xfe"]
+
+
+def check_bytes(data, case, real=None):
+    """A file holding bytes that are not text in the read encoding inside a sequence line cannot be a valid sequence file."""
+    from localcider.backend.seqfileparser import SequenceFileParser
+    from localcider.sequenceParameters import SequenceParameters as SP
+    out = []
+    if real is None:
+        install_fs()
+        _files["mem"] = data
+        name = "mem"
+    else:
+        name = real
+    for route, f in (("parseSeqFile", lambda: SequenceFileParser().parseSeqFile(name, silent=True)),
+                     ("SequenceParameters(sequenceFile)", lambda: SP(sequenceFile=name).get_sequence())):
+        try:
+            got = f()
+        except Exception:  # noqa
+            continue
+        out.append({"key": "undecodable-file-accepted", "what": "%s accepted a file whose sequence lines hold the undecodable bytes %r "
+                    "(%r) and produced %r" % (route, case["bad"], data[:60], got), "case": dict(case, data=data.hex())})
+        break
+    return out
 
 
 def check_text(text, depth, case, real=None):
@@ -152,6 +187,21 @@ def check_case(case):
     if k == "text":
         v, verdict, calls = check_text(case["text"], case.get("depth", 2), case)
         return v
+    if k == "bytes":
+        data = bytes.fromhex(case["data"])
+        if case.get("real"):
+            d = tempfile.mkdtemp(prefix="vmc_c14_")
+            try:
+                p = os.path.join(d, "seq.fasta")
+                with open(p, "wb") as f:
+                    f.write(data)
+                import localcider.backend.seqfileparser as P
+                if isinstance(getattr(P, "open", None), _FS):
+                    del P.open
+                return check_bytes(data, case, real=p)
+            finally:
+                shutil.rmtree(d, True)
+        return check_bytes(data, case)
     if k == "realfile":
         d = tempfile.mkdtemp(prefix="vmc_c14_")
         try:
@@ -212,6 +262,36 @@ def shard(s):
             for pos in range(len(text) + 1):
                 for c in (">", "*", "\n>x\n", "b", "1", " "):
                     consume(text[:pos] + c + text[pos:], 0, {"kind": "text", "depth": 0, "inserted_at": pos})
+    elif kind == "bytes":
+        d = tempfile.mkdtemp(prefix="vmc_c14_")
+        try:
+            for host in (b"AKE\nDST\n", b">h one\nAKE\nDST\n", b">sp|P1|X\n" + SEQ23.encode() + b"\n", b"ake dst\r\n"):
+                start = host.index(b"\n") + 1 if host.startswith(b">") else 0
+                for bad in BADBYTES:
+                    for pos in range(start, len(host) + 1):
+                        for data in (host[:pos] + bad + host[pos:], host[:pos] + bad + host[pos + 1:]):
+                            for real in (False, True):
+                                if real and (pos - start) % 4:
+                                    continue
+                                case = {"kind": "bytes", "bad": repr(bad), "pos": pos, "real": real}
+                                p = None
+                                import localcider.backend.seqfileparser as P
+                                if real:
+                                    p = os.path.join(d, "b.fasta")
+                                    with open(p, "wb") as f:
+                                        f.write(data)
+                                    if isinstance(getattr(P, "open", None), _FS):
+                                        del P.open
+                                v = check_bytes(data, case, real=p)
+                                acc.states += 1
+                                acc.traces += 1
+                                acc.transitions += 2
+                                acc.evaluations += 1
+                                acc.out(REJECT)
+                                for x in v:
+                                    acc.viol(x["key"], x["what"], x["case"])
+        finally:
+            shutil.rmtree(d, True)
     elif kind == "longfiles":
         import random as _r
         base = "MKVLAAGIDESTYPWFRNQHC"
@@ -267,6 +347,7 @@ def run(tier, seed, t0):
     real = ["AKE\n", ">h\nAK E\n12 KA*\n", "AK\n>h\n>h2\nA", "A*K\n", ">only header\n", "ak\n", "MKE\r\nDST\r\n", "A\tK\n",
             SEQ23 + "\n", ">x\n" + SEQ61[:30] + "\n" + SEQ61[30:] + "*\n"]
     shards.append(("real", real))
+    shards.append(("bytes",))
     for n_ in ((11000,) if tier == "quick" else (9000, 12000, 20000, 35000)):
         shards.insert(0, ("longfiles", (n_,)))
     acc = core.pmap(shard, shards)
@@ -275,7 +356,7 @@ def run(tier, seed, t0):
         rule="every file text of length 0..%d over %d symbols %r served through an in-memory open(), every structured layout "
              "(header x every line length x 10-residue spacing x numbering x blank lines x trailing newline x stop) of %s, every "
              "single-character substitution by %d characters and 6 insertions at every position of sampled-by-index layouts, and "
-             "%d real temporary files; reference parser (vmc/refmodel/parser.py) gives must-accept(seq) / must-reject / dont-care; "
+             "%d real temporary files; 13 byte strings that are not text in the read encoding (lone continuation / lead bytes, Latin-1 letters, surrogate, overlong) inserted and substituted at every position of the sequence lines of 4 host files (in-memory open honouring the encoding/errors arguments the library passes, and real binary files) must be rejected; reference parser (vmc/refmodel/parser.py) gives must-accept(seq) / must-reject / dont-care; "
              "accepted files up to length %d are also loaded with SequenceParameters(sequenceFile=...) and compared (sequence, and "
              "a 32-entry API vector up to length %d) with SequenceParameters(seq); non-trivial = accepted files that needed "
              "parsing (line breaks, spaces, digits, stop, header)" % (
